@@ -437,6 +437,9 @@ def f_retrieve_ritzpair_herm(report):
     for r, cl in ordered_clause("S->m_ritz_val"):
         post.append(("wanted-first order by the selection rule %s: no later Ritz value strictly precedes an earlier one" % r,
                      "!(%s && S->m_ritz_val[g_i] == S->m_ritz_val[g_i] && S->m_ritz_val[g_j] == S->m_ritz_val[g_j]) || verif_ordered_%s(selection, S->m_ritz_val[g_i], S->m_ritz_val[g_j])" % (both, r)))
+    from props import C18 as _C18
+    post.insert(0, ("normal exit only for a selection rule the symmetric family supports (others are rejected with invalid_argument)",
+                    "(" + " || ".join("selection == SortRule_%s" % r for r in _C18.DOC_REAL) + ")"))
     post.append(("BothEnds: position q holds source position p(q) of the descending order",
                  "!(%s && selection == SortRule_BothEnds && S->m_ritz_val[g_i] == S->m_ritz_val[g_i] && S->m_ritz_val[g_j] == S->m_ritz_val[g_j]) || "
                  "((PMAP(g_i, S->m_ncv) < PMAP(g_j, S->m_ncv)) ? !(S->m_ritz_val[g_j] > S->m_ritz_val[g_i]) : !(S->m_ritz_val[g_i] > S->m_ritz_val[g_j]))" % both))
@@ -1272,6 +1275,9 @@ def f_retrieve_ritzpair_gen(report):
              "!(0 <= g_i && g_i < S->m_ncv) || (S->tag_val[g_i] == S->tag_est[g_i] && 0 <= S->tag_val[g_i] && S->tag_val[g_i] < S->m_ncv && (g_i >= S->m_nev || S->m_ritz_vec.coltag[g_i] == S->tag_val[g_i]))"),
             ("distinct positions hold distinct eigenpairs (a permutation of the decomposition)", "!(%s) || S->tag_val[g_i] != S->tag_val[g_j]" % both),
             ("Ritz data stamped with the fresh decomposition", "S->st_ritz == g_clock"), ("one clock tick", "g_clock == old_clock + 1")]
+    from props import C18 as _C18
+    post.insert(0, ("normal exit only for a selection rule the general family supports (others are rejected with invalid_argument)",
+                    "(" + " || ".join("selection == SortRule_%s" % r for r in _C18.DOC_CPLX) + ")"))
     for r, cl in ordered_clause("", gen=True):
         post.append(("wanted-first order by the selection rule %s: no later Ritz value strictly precedes an earlier one" % r,
                      "!(%s && CNOTNAN(S->m_ritz_val[g_i]) && CNOTNAN(S->m_ritz_val[g_j])) || verif_ordered_%s(selection, S->m_ritz_val[g_i], S->m_ritz_val[g_j])" % (both, r)))
